@@ -53,7 +53,9 @@ pub open spec fn step(s: Lc, e: Ev) -> Lc {
         Ev::DeqRestart => Lc { restart_pending: true, ..s },
         Ev::RunDone { .. } => Lc { pending: None, ..s },
         Ev::RunAbandoned { .. } => Lc { pending: None, abandoned: s.abandoned + 1, ..s },
-        Ev::CbStopped { gid } => if s.ph is Running { Lc { ph: Ph::RestartStopped, ..s } } else { Lc { ph: Ph::Stopped, ..s } },
+        // a callback may register timers through its context: whatever `stopped` registered is live afterwards (so timers must be cleared
+        // AFTER `stopped`, not before it)
+        Ev::CbStopped { gid } => if s.ph is Running { Lc { ph: Ph::RestartStopped, timers_live: true, ..s } } else { Lc { ph: Ph::Stopped, timers_live: true, ..s } },
         Ev::CbFinished { .. } => Lc { ph: Ph::Finished, ..s },
         Ev::TimersCleared => Lc { timers_live: false, ..s },
         Ev::Recreated { gid } => Lc { gid: gid, recreated: s.recreated + 1, ..s },
